@@ -423,6 +423,7 @@ structure Ctx where
   excludeP : Option Pred := none        -- callable `exclude_keys`
   keyStyleP : Option Pred := none       -- callable `key_style`: 'label' where the filter accepts
   uncollapseP : Option Pred := none     -- callable `uncollapse`
+  hideP : Option Pred := none           -- custom `render_value_fn` that returns None where it accepts
   deriving Repr
 
 /-- Arguments that act on the root only: option-level markup, written as given (NOT escaped:
@@ -524,6 +525,10 @@ def childShown (c : Ctx) (path : List Key) : Bool :=
 def childLabel (c : Ctx) (seq : Bool) (path : List Key) : Bool :=
   seq || (match c.keyStyleP with | some q => q.eval path | none => c.keyStyle == .label)
 
+/-- Does the custom child renderer return nothing for the child at `path`? -/
+def childHidden (c : Ctx) (path : List Key) : Bool :=
+  match c.hideP with | some q => q.eval path | none => false
+
 /-- Does any child pass `f`? (`has_child` / `if label_keys:`) -/
 def anyChild (f : List Key → Bool) (path : List Key) : List Tree → Bool
   | [] => false
@@ -614,12 +619,28 @@ def wrapHL (c : Ctx) (path : List Key) (html : Str) : Str :=
   if (hlClasses c path).isEmpty then html
   else element c!"div" [] (hlClasses c path) [] [] [html]
 
+/-- Is anything written for the value of the child at `path`? Nothing, when the custom renderer
+returns None and no highlight / lowlight wrapper applies (a wrapper is written even around nothing). -/
+def childVisible (c : Ctx) (path : List Key) : Bool :=
+  !childHidden c path || !(hlClasses c path).isEmpty
+
+/-- `has_child` of `complex_value`: a summary-style child was processed, or a label-style row was
+actually written. -/
+def hasChild (c : Ctx) (seq : Bool) (path : List Key) (children : List Tree) : Bool :=
+  anyChild (fun q => childShown c q && !childLabel c seq q) path children
+  || anyChild (fun q => childShown c q && childLabel c seq q && childVisible c q) path children
+
+/-- What `render_child_value` writes for the child at `path`, given the child's own rendering: the
+highlight / lowlight wrapper around it, or around nothing when the custom renderer returned None. -/
+def childValue (c : Ctx) (path : List Key) (rendered : Str) : Str :=
+  wrapHL c path (if childHidden c path then [] else rendered)
+
 mutual
   /-- `HtmlTreeView.render` (`_render`, tree_view.py:196-443; debug off): optional `<details>`
   with summary around the content, which is `simple_value` for a leaf and `complex_value`
-  (tree_view.py:982-1232) for a container: children under summary-style keys are rendered with
-  their name, children under label-style keys (always for sequences) become rows of a table;
-  each child rendering goes through the highlight / lowlight wrapper. -/
+  (tree_view.py:982-1232) for a container: first the displayed children with summary-style keys,
+  then ONE table with a row per displayed child with a label-style key (always for sequences)
+  whose value cell is not None, then the empty-container marker if nothing was written. -/
   def render (st : Sites) (c : Ctx) (top : Top) (name : Option Str) (path : List Key) : Tree → Str
     | .leaf k p kind repr raw tip =>
       detailsEl st c top name path (.leaf k p kind repr raw tip)
@@ -628,30 +649,30 @@ mutual
     | .node k p kind tip children =>
       detailsEl st c top name path (.node k p kind tip children)
         (complexEl kind (contentCss c top name (.node k p kind tip children))
-          (if anyChild (childShown c) path children then
-             summaryChildren st c kind.isSeq path children
-             ++ (if anyChild (fun q => childShown c q && childLabel c kind.isSeq q) path children then
-                   c!"<table>" ++ rows st c kind.isSeq path children ++ c!"</table>"
-                 else [])
-           else emptySpan))
+          (summaryChildren st c kind.isSeq path children
+           ++ (if anyChild (fun q => childShown c q && childLabel c kind.isSeq q) path children then
+                 c!"<table>" ++ rows st c kind.isSeq path children ++ c!"</table>"
+               else [])
+           ++ (if hasChild c kind.isSeq path children then [] else emptySpan)))
 
   /-- the displayed children whose key is summary-style, in order -/
   def summaryChildren (st : Sites) (c : Ctx) (seq : Bool) (path : List Key) : List Tree → Str
     | [] => []
     | t :: ts =>
       (if childShown c (path ++ [t.key]) && !childLabel c seq (path ++ [t.key]) then
-         wrapHL c (path ++ [t.key])
+         childValue c (path ++ [t.key])
            (render st (childCtx c) {} (some t.key.summaryName) (path ++ [t.key]) t)
        else [])
       ++ summaryChildren st c seq path ts
 
-  /-- the displayed children whose key is label-style, as table rows -/
+  /-- the displayed children whose key is label-style and whose value cell is not None, as rows -/
   def rows (st : Sites) (c : Ctx) (seq : Bool) (path : List Key) : List Tree → Str
     | [] => []
     | t :: ts =>
-      (if childShown c (path ++ [t.key]) && childLabel c seq (path ++ [t.key]) then
+      (if childShown c (path ++ [t.key]) && childLabel c seq (path ++ [t.key])
+            && childVisible c (path ++ [t.key]) then
          rowEl (objectKeyEl st (childCtx c) t)
-           (wrapHL c (path ++ [t.key]) (render st (childCtx c) {} none (path ++ [t.key]) t))
+           (childValue c (path ++ [t.key]) (render st (childCtx c) {} none (path ++ [t.key]) t))
        else [])
       ++ rows st c seq path ts
 end
@@ -850,14 +871,16 @@ def jsEscapeWith (table : List (Char × Str)) : Str → Str
 
 mutual
   /-- The texts of all leaves of the rendered tree (what `value_repr` shows for each); children
-  hidden by callable include / exclude filters are not part of it. -/
+  hidden by callable include / exclude filters or by a custom child renderer are not part of it. -/
   def leafTextsOf (c : Ctx) (path : List Key) : Tree → List Str
     | .leaf k p kind repr raw tip => [leafText c (.leaf k p kind repr raw tip)]
     | .node _ _ _ _ children => leafTextsOfAll c path children
   def leafTextsOfAll (c : Ctx) (path : List Key) : List Tree → List Str
     | [] => []
     | t :: ts =>
-      (if childShown c (path ++ [t.key]) then leafTextsOf (childCtx c) (path ++ [t.key]) t else [])
+      (if childShown c (path ++ [t.key]) && !childHidden c (path ++ [t.key]) then
+         leafTextsOf (childCtx c) (path ++ [t.key]) t
+       else [])
       ++ leafTextsOfAll c path ts
 end
 
@@ -871,7 +894,7 @@ mutual
   def keyTextsOfAll (onlyShown : Bool) (c : Ctx) (seq : Bool) (path : List Key) : List Tree → List Str
     | [] => []
     | t :: ts =>
-      (if childShown c (path ++ [t.key]) then
+      (if childShown c (path ++ [t.key]) && !childHidden c (path ++ [t.key]) then
          (if childLabel c seq (path ++ [t.key]) then [t.key.text]
           else if !onlyShown || needsSummary (childCtx c) true t then [t.key.summaryName] else [])
          ++ keyTextsOf onlyShown (childCtx c) (path ++ [t.key]) t
